@@ -22,8 +22,14 @@ class RunEval:
         self.lit = w.interp.call_func(m.method("Plan", "lit", "EVAL"), None, [7], {}, bound_self=w.plan)
         self.c = w.interp.call_func(m.method("Plan", "_call", "EVAL"), None, ["FRAME", self._fn("c", fail), self.x, self.lit], {"k": self.x},
                                     bound_self=w.plan)
+        # two calls that run only for their effect: nobody consumes their results
+        self.s1, self.s2 = w.call("s1"), w.call("s2")
+        self.s1.attrs["fn"] = self._fn("s1", fail)
+        self.s2.attrs["fn"] = self._fn("s2", fail)
         w.names[id(self.c)] = "c"
         w.names[id(self.lit)] = "lit"
+        w.interp.ext.setdefault("threading.Lock", lambda: Obj(None, {}, "lock"))
+        w.interp.ext.setdefault("threading.RLock", lambda: Obj(None, {}, "lock"))
         w.interp.stubs["prune_source_literals"] = Stub("prune_source_literals", lambda p, **kw: p)
         w.interp.stubs["create_chained_call_error"] = Stub("create_chained_call_error", lambda node, exc: ("chained", node, exc))
         self.observer = Obj(None, {k: Stub(k, self._ev(k)) for k in ("increment_running", "increment_completed", "increment_failed",
@@ -69,6 +75,44 @@ class RunEval:
             return e.value
 
 
+def find_token(roots, token):
+    """Search the abstract heap reachable from `roots` for an object whose `.value` is `token` (or the token itself held in a
+    container).  A closure reaches exactly its free variables.  -> description of the reference path, or None."""
+    from ..absval import Closure
+    from ..canon import free_names
+    seen = set()
+    stack = [(r, name) for name, r in roots]
+    while stack:
+        v, path = stack.pop()
+        if id(v) in seen:
+            continue
+        seen.add(id(v))
+        if isinstance(v, str) or v is None or isinstance(v, (int, float, bool, Stub)):
+            if v == token and isinstance(v, str):
+                return path
+            continue
+        if isinstance(v, Obj):
+            for k, x in v.attrs.items():
+                if x == token and isinstance(x, str):
+                    return f"{path}.{k}"
+                stack.append((x, f"{path}.{k}"))
+        elif isinstance(v, dict):
+            for k, x in v.items():
+                stack.append((k, f"{path}<key>"))
+                stack.append((x, f"{path}[{getattr(k, 'name', None) or k!r}]"))
+        elif isinstance(v, (list, tuple, set, frozenset)):
+            for i, x in enumerate(v):
+                stack.append((x, f"{path}[{i}]"))
+        elif isinstance(v, Closure):
+            if v.bound_self is not None:
+                stack.append((v.bound_self, f"{path}.__self__"))
+            for nm in sorted(free_names(v.func.node)):
+                env, x = v.env.lookup(nm) if v.env is not None else (None, None)
+                if env is not None:
+                    stack.append((x, f"{path}<captures {nm}>"))
+    return None
+
+
 def _tb(n):
     tb = None
     for i in range(n):
@@ -83,7 +127,7 @@ def rule_run_callback(ctx, rr, rid_binding=None, rid_slots=None, rid_release=Non
     try:
         ev = RunEval(m, rr)
         table, out_slot, proc = ev.prepare()
-        for n in (ev.x, ev.lit, ev.c):
+        for n in (ev.x, ev.lit, ev.c, ev.s1):
             ev.process(proc, n)
         ev2 = RunEval(m, rr)
         table2, out_slot2, proc2 = ev2.prepare()
@@ -94,12 +138,12 @@ def rule_run_callback(ctx, rr, rid_binding=None, rid_slots=None, rid_release=Non
     except AbsRaise as e:
         raise AnalysisError(f"abstract evaluation of the run callback raised {e.value!r}")
     if rid_binding:
-        want = [("x", (), {}), ("c", ("Vx", 7), {"k": "Vx"})]
+        want = [("x", (), {}), ("c", ("Vx", 7), {"k": "Vx"}), ("s1", (), {})]
         ok = ev.calls == want
         ctx.ob(rid_binding, f"{rr.bound_run.short}/binding", ok, loc(rr.bound_run),
                "evaluated on x=fx(); c=fc(x, 7, k=x): every function receives the values of its argument nodes in order and by name" if ok else
                f"evaluated on x=fx(); c=fc(x, 7, k=x): the functions were invoked as {ev.calls!r}, expected {want!r}")
-        ok = len(ev.applied) == 2 and all(isinstance(a, Stub) and a.name.startswith("fn_") for a in ev.applied)
+        ok = len(ev.applied) == 3 and all(isinstance(a, Stub) and a.name.startswith("fn_") for a in ev.applied)
         ctx.ob(rid_binding, f"{rr.bound_run.short}/through-retry", ok, loc(rr.bound_run),
                "each user function is invoked through retry(fn)" if ok else
                f"the user functions are not (all) wrapped by the retry decorator (decorated: {[getattr(a, 'name', a) for a in ev.applied]})")
@@ -109,7 +153,7 @@ def rule_run_callback(ctx, rr, rid_binding=None, rid_slots=None, rid_release=Non
                f"the output slot holds {out_slot.attrs.get('value') if out_slot is not None else None!r} after the output call returned 'Vc'")
     if rid_slots:
         keys = set(id(k) for k in table)
-        ok = keys == {id(ev.x), id(ev.c)}
+        ok = keys == {id(ev.x), id(ev.c), id(ev.s1), id(ev.s2)}
         ctx.ob(rid_slots, f"{f.short}/bound-calls-for-calls-only", ok, loc(f), "bound calls exist only for exact Call nodes" if ok else
                "a non-Call node can get a bound call (its .result.value store would overwrite a Literal)")
         ok = ev.lit.attrs.get("value") == 7 and out_slot is not None and out_slot2 is not None and out_slot is not out_slot2 \
@@ -123,7 +167,7 @@ def rule_run_callback(ctx, rr, rid_binding=None, rid_slots=None, rid_release=Non
         def cell(tb, node):
             v = [v for k, v in tb.items() if k is node]
             return v[0] if v else None
-        ok = all(isinstance(cell(table, n), Obj) and cell(table, n).attrs.get("value") is None for n in (ev.x, ev.c))
+        ok = all(isinstance(cell(table, n), Obj) and cell(table, n).attrs.get("value") is None for n in (ev.x, ev.c, ev.s1))
         ctx.ob(rid_release, f"{f.short}/released-after-call", ok, loc(f),
                "after a call returned its bound call (argument slots) has been dropped from the table" if ok else
                "the bound call of a finished call stays in the table: its inputs stay reachable until the run ends")
@@ -131,11 +175,27 @@ def rule_run_callback(ctx, rr, rid_binding=None, rid_slots=None, rid_release=Non
         ctx.ob(rid_release, f"{f.short}/released-after-failure", okf, loc(f),
                "after a call raised its bound call has been dropped as well" if okf else
                "the bound call of a failed call stays in the table: its inputs stay reachable while the run continues")
+    if rid_release:
+        # abstract-heap reachability: once c (the only consumer of x) has finished, the value of x must not be reachable from
+        # anything the preparation handed out - whatever table, closure or record would still hold it
+        for label, e_, tb_, os_, pr_ in (("after-last-consumer", ev, table, out_slot, proc), ("after-failed-consumer", evf, tablef, out_slotf, procf)):
+            roots = [("bound-call table", tb_), ("output slot", os_), ("run callback", pr_), ("plan", e_.w.plan)]
+            where = find_token(roots, "Vx")
+            if where is None and label == "after-last-consumer":
+                # a finished call whose result nobody consumes (s1; s2 has not run yet) holds nothing either
+                where = find_token(roots, "Vs1")
+                if where is not None:
+                    where += " (result of a finished call that has no consumer)"
+            ctx.ob(rid_release, f"{f.short}/unreachable-{label}", where is None, loc(f),
+                   "evaluated: the result of x is unreachable from the bound-call table, the output slot, the callback and the plan once its "
+                   "only consumer has " + ("finished" if label == "after-last-consumer" else "failed") if where is None else
+                   f"evaluated: after its only consumer {'finished' if label == 'after-last-consumer' else 'failed'} the result of x is still "
+                   f"referenced through {where}: intermediate results stay alive for the whole run")
     if rid_bracket:
         def well_formed(events, kinds):
             return [e[0] for e in events] == kinds and all(e[1] == "run" for e in events) and \
                 all(events[i][2] == events[i + 1][2] for i in range(0, len(events) - 1, 2))
-        ok = well_formed(ev.events, ["increment_running", "increment_completed", "increment_running", "increment_completed"])
+        ok = well_formed(ev.events, ["increment_running", "increment_completed"] * 3)
         ctx.ob(rid_bracket, f"{f.short}/bracket-on-success", ok, loc(f),
                "evaluated: each call reports running then completed with the same section and scope; a literal reports nothing" if ok else
                f"evaluated: the notifications for x, literal, c were {ev.events!r}")
